@@ -256,6 +256,34 @@ fn main() {
         st
     }).reduce(Stats::default, Stats::merge);
 
+    // layer E: reference names — branch names with '/', '.', non-ASCII, and names that collide with a tag name
+    let branch_names = ["feature/x", "release/1.2", "v1.0.0", "stable", "a.b-c_d", "fé", "1.5.0rc1", "heads/main", "tags/v1.0.0", "HEAD2", "main/sub"];
+    let s_e = branch_names.par_iter().enumerate().map(|(bi, name)| {
+        let mut st = Stats::default();
+        // "main/sub" cannot coexist with "main" (ref directory/file conflict): the other branch is called "trunk" there
+        let other = if name.starts_with("main/") { "trunk" } else { "main" };
+        let shape = Shape { parents: vec![vec![], vec![0], vec![1]], branches: [(other.to_string(), 1), (name.to_string(), 2)].into_iter().collect(), cur: name.to_string(), ops: vec!["commit".into(), format!("branch {name}"), "commit".into()] };
+        let mut repo = Repo::create(&root, &format!("e{bi}"), &shape, &gitx::dates(3, DateMode::Increasing));
+        let base = Tag { name: "v1.0.0".into(), target: 0, annotated: false };
+        let mut tagsets: Vec<Vec<Tag>> = vec![vec![base.clone()]];
+        if *name != "v1.0.0" {
+            // a tag with the branch's own short name, lightweight and annotated, on the middle commit and on the tip
+            for (target, annotated) in [(1, false), (2, false), (1, true)] { tagsets.push(vec![base.clone(), Tag { name: name.to_string(), target, annotated }]); }
+        }
+        for tags in &tagsets {
+            repo.set_tags(tags);
+            for head in [Head::Branch(name.to_string()), Head::Branch(other.to_string()), Head::Detached(2)] {
+                repo.set_head(&head);
+                st.inc("states"); st.inc("refname_states");
+                let label = format!("branch {name:?} tags {:?} head {:?}", tags.iter().map(|t| format!("{}@{}{}", t.name, t.target, if t.annotated { "(annotated)" } else { "" })).collect::<Vec<_>>(), head);
+                let sr = StateRef { shape: &shape, tags, head: &head, wt: WorkTree::Clean, repo: &repo, label };
+                for input in ["auto", "semver", "pep440"] { judge(&ctx, &sr, input, &mut st); }
+            }
+        }
+        repo.remove();
+        st
+    }).reduce(Stats::default, Stats::merge);
+
     // process conformance slice: the real binary with -C, absolute and relative, from another cwd
     let mut s_p = Stats::default();
     {
@@ -279,7 +307,7 @@ fn main() {
     }
     let _ = std::fs::remove_dir_all(&root);
 
-    let all = s_main.merge(s_c).merge(s_d).merge(s_p.clone());
+    let all = s_main.merge(s_c).merge(s_d).merge(s_e).merge(s_p.clone());
     let was_capped = capped.load(std::sync::atomic::Ordering::Relaxed);
     let mut cov = Coverage::default();
     cov.states = all.get("states");
@@ -287,7 +315,7 @@ fn main() {
     cov.evaluations = all.get("evaluations") + all.get("render_evaluations");
     cov.traces_validated = all.get("states");
     cov.distinct_nontrivial = all.get("tagged_evaluations");
-    cov.rule = format!("layer A: BFS over commit / branch&checkout / checkout / merge(ff or true merge) from a one-commit repository, commits <= {nc}, extra branches <= {nb}: {} distinct shapes ({} used{}), {} explorer transitions; layer B: every placement of <= {tmax} tags from {:?} on any commits x HEAD at every branch tip and detached at every commit x date modes (increasing; decreasing and zig-zag for merge shapes); layer C: every subset of <= {max_subset} of 8 names {:?} on one commit x 2 HEAD positions x 3 input formats; layer D: 8 work-tree states x {} baseline repositories. Every state is materialised in real git by fast-import, conformance-checked with `git log --all` / `for-each-ref` / `symbolic-ref` / `status --porcelain=v2`, and judged against R-GIT (nearest validly tagged commit, highest tag under R-SV / C11 order with the majority rule in auto mode, distance = |reach(HEAD) minus reach(tag)|, dirty, branch, hashes, times). non-trivial = evaluations that have a valid reachable tag", all_shapes.len(), shapes.len(), if quick { ": all with <= 3 commits plus the 4-commit merge shapes" } else { "" }, shape_transitions, alpha.iter().map(|a| a.0).collect::<Vec<_>>(), names8.iter().map(|a| a.0).collect::<Vec<_>>(), baselines.len());
+    cov.rule = format!("layer A: BFS over commit / branch&checkout / checkout / merge(ff or true merge) from a one-commit repository, commits <= {nc}, extra branches <= {nb}: {} distinct shapes ({} used{}), {} explorer transitions; layer B: every placement of <= {tmax} tags from {:?} on any commits x HEAD at every branch tip and detached at every commit x date modes (increasing; decreasing and zig-zag for merge shapes); layer C: every subset of <= {max_subset} of 8 names {:?} on one commit x 2 HEAD positions x 3 input formats; layer D: 8 work-tree states x {} baseline repositories; layer E: 11 branch names (with '/', '.', non-ASCII, equal to a version tag / a non-version tag / a ref-namespace word) x a tag of the same short name (absent, lightweight or annotated, on the middle commit or the tip) x HEAD on that branch / the other branch / detached x 3 input formats. Every state is materialised in real git by fast-import, conformance-checked with `git log --all` / `for-each-ref` / `symbolic-ref` / `status --porcelain=v2`, and judged against R-GIT (nearest validly tagged commit, highest tag under R-SV / C11 order with the majority rule in auto mode, distance = |reach(HEAD) minus reach(tag)|, dirty, branch, hashes, times). non-trivial = evaluations that have a valid reachable tag", all_shapes.len(), shapes.len(), if quick { ": all with <= 3 commits plus the 4-commit merge shapes" } else { "" }, shape_transitions, alpha.iter().map(|a| a.0).collect::<Vec<_>>(), names8.iter().map(|a| a.0).collect::<Vec<_>>(), baselines.len());
     cov.exhaustive = !was_capped;
     cov.samples = vec![json!({"ops":["branch b1","commit","checkout main","commit","merge b1"],"dates":"decreasing","tags":["v2.0.0@1","v1.0.0@0"],"head":"main"}), json!({"one_commit_tags":["v1.0.0","1.1.0rc1","1.1.0.post1"],"input_format":"auto"}), json!({"worktree":"IgnoredOnly","head":"detached"})];
     cov.set("clause_counts", all.to_json());
